@@ -15,7 +15,7 @@ class Check(EngineCheck):
                 # no hang: every build of the transliterated engine returns (potential-function termination proof), any schedule, any cancellation point
                 "LLBuild.Refine.build_terminates", "LLBuild.Refine.EngineImpl_terminates", "LLBuild.Refine.refinement_final_sized",
                 "LLBuild.Refine.EngineImpl_sound_C05_quiescent_sized", "LLBuild.Refine.EngineImpl_sound_C01_sized"]
-    mix = [(0.7, {"cancel": True}), (0.15, {"cancel": True, "threads": True}), (0.15, {"cancel": True, "cyclic": True})]
+    mix = [(0.6, {"cancel": True}), (0.15, {"cancel": True, "threads": True}), (0.15, {"cancel": True, "cyclic": True}), (0.1, {"foreign_cancel": True})]
     budget = (350, 3500)
     assumptions = EngineCheck.assumptions + [
         "termination after cancellation ('never hangs') is checked by the harness watchdog with cancellation delivered at hook points and inside callbacks; it is not a theorem",
